@@ -152,4 +152,33 @@ theorem trailers_only_metadata_in_head (c : ClientForm) (hc : c = .grpc ∨ c = 
 example : (addResponseHeaders .grpcWeb { «end» := some { err := some { code := 5, msg := .text (s "gone"), details := 1 }, trailers := [(s "X-T", [[7]])] } } {}).2.hdr.values (s "X-T") = [[7]] := by
   decide +kernel
 
+
+theorem foldl_setRaw_prefixed_values_mem (p : Bytes) (ts : Hdr) (h : Hdr) (k : Bytes) (t : Bytes × List Bytes)
+    (hd : ts.Pairwise (fun a b => a.1 ≠ b.1)) (ht : t ∈ ts) (hk : p ++ t.1 = canonKey k) :
+    (ts.foldl (fun acc x => Hdr.setRaw acc (p ++ x.1) x.2) h).values k = t.2 := by
+  have hmap : ts.foldl (fun acc x => Hdr.setRaw acc (p ++ x.1) x.2) h
+      = (ts.map (fun x => (p ++ x.1, x.2))).foldl (fun acc x => Hdr.setRaw acc x.1 x.2) h := by
+    rw [List.foldl_map]
+  rw [hmap]
+  refine foldl_setRaw_values_mem _ h k (p ++ t.1, t.2) ?_ (List.mem_map.mpr ⟨t, ht, rfl⟩) hk
+  rw [List.pairwise_map]
+  exact hd.imp (fun hab heq => hab (List.append_cancel_left heq))
+
+/-- **The trailers of a unary Connect response are `Trailer-` prefixed headers of the head**: when the response
+    metadata carries the end, every trailer of that end (distinct keys) is in the head under `Trailer-<name>` with
+    its values (for every name other than the one control header set afterwards). -/
+theorem connect_unary_trailers_in_head (c : ClientForm) (hc : c = .connectPost ∨ c = .connectGet) (rm : RespMeta)
+    (sink : Sink) (e : RespEnd) (he : rm.end = some e) (hd : e.trailers.Pairwise (fun a b => a.1 ≠ b.1))
+    (t : Bytes × List Bytes) (ht : t ∈ e.trailers) (k : Bytes) (hk : s "Trailer-" ++ t.1 = canonKey k)
+    (hne : canonKey (s "Accept-Encoding") ≠ canonKey k) :
+    (addResponseHeaders c rm sink).2.hdr.values k = t.2 := by
+  unfold addResponseHeaders
+  rcases hc with rfl | rfl <;> simp only [he] <;>
+    rw [setIf_values_ne _ _ _ _ _ hne] <;>
+    exact foldl_setRaw_prefixed_values_mem (s "Trailer-") e.trailers _ k t hd ht hk
+
+/-- Non-vacuity: a trailer of a failed unary Connect RPC, read off the head. -/
+example : (addResponseHeaders .connectPost { codec := s "proto", «end» := some { err := some { code := 5, msg := .gen }, trailers := [(s "X-T", [[7]])] } } {}).2.hdr.values (s "Trailer-X-T") = [[7]] := by
+  decide +kernel
+
 end Vanguard.C05
